@@ -64,14 +64,14 @@ structure NDefects where
   ptrFuncNotFetched : Bool
   /-- `FetchFn` unwraps an interface only at the top: a member of type `*interface{}` holding a function
       is accepted (`isFuncType` dereferences to the interface) but `derefFn` stops at the interface value
-      (`reflect: call of reflect.Value.Call on interface Value`) — still so in the current code -/
+      (`reflect: call of reflect.Value.Call on interface Value`); repaired by 72281b1 -/
   ptrIfaceFuncNotFetched : Bool
   deriving DecidableEq, Repr
 
 def NDefects.asWas : NDefects := ⟨true, true, true, true, true, true, true, true, true, true⟩
 /-- the documented behaviour: no deviation -/
 def NDefects.repaired : NDefects := ⟨false, false, false, false, false, false, false, false, false, false⟩
-def NDefects.asIs : NDefects := ⟨false, false, false, false, false, false, false, false, false, true⟩
+def NDefects.asIs : NDefects := ⟨false, false, false, false, false, false, false, false, false, false⟩
 
 /-! ## Spec: what Go / `reflect` resolve (the selector rule)
 
